@@ -202,7 +202,7 @@ func run(t *rapid.T) {
 
 	e.compareAll("setup")
 
-	dupDest, refused, staleMove, staleTried := false, false, false, false
+	dupDest, refused, staleMove, staleTried, unionSet := false, false, false, false, false
 
 	pickDst := func(t *rapid.T) (string, bool) {
 		if rapid.IntRange(0, 7).Draw(t, "missing") == 0 {
@@ -365,6 +365,45 @@ func run(t *rapid.T) {
 			rg := w.DrawRange(t, s)
 			if rg == nil {
 				t.Skip("empty view")
+			}
+
+			// one time in three the set is a union of several elements in any order: the messages are taken in the order
+			// of the set (a message named twice counts where it is named first), and that is the order in which the
+			// destination receives them
+			if n := len(s.Mirror.Msgs); n >= 2 && rapid.IntRange(0, 2).Draw(t, "union") == 0 {
+				var (
+					parts []string
+					pos   []int
+					seen  = map[int]bool{}
+				)
+
+				for i, k := 0, rapid.IntRange(2, 3).Draw(t, "elements"); i < k; i++ {
+					lo := rapid.IntRange(1, n).Draw(t, "ulo")
+					hi := lo
+
+					if rapid.Bool().Draw(t, "urange") {
+						hi = rapid.IntRange(lo, n).Draw(t, "uhi")
+					}
+
+					if lo == hi {
+						parts = append(parts, fmt.Sprint(lo))
+					} else if rapid.Bool().Draw(t, "urev") {
+						parts = append(parts, fmt.Sprintf("%d:%d", hi, lo))
+					} else {
+						parts = append(parts, fmt.Sprintf("%d:%d", lo, hi))
+					}
+
+					for p := lo; p <= hi; p++ {
+						if !seen[p] {
+							seen[p] = true
+
+							pos = append(pos, p-1)
+						}
+					}
+				}
+
+				rg = &mach.Range{Text: strings.Join(parts, ","), Pos: pos}
+				unionSet = true
 			}
 
 			move := rapid.Bool().Draw(t, "move")
@@ -701,6 +740,10 @@ func run(t *rapid.T) {
 
 	if staleTried {
 		labels = append(labels, "move-without-sync")
+	}
+
+	if unionSet {
+		labels = append(labels, "union-set")
 	}
 
 	ev.Case(dupDest || refused || staleMove, ev.Hash(strings.Join(e.rec.Ops, ";")), labels...)
